@@ -81,6 +81,9 @@ func runC04(e *Env) {
 	}
 	e.RunCases("programs", e.N(15000, 3000000), 0, c04Case)
 	e.RunCases("long-chains", e.N(400, 40000), 0, c04LongCase)
+	e.RunCases("redispatch", e.N(3000, 300000), 0, c04RedispatchCase)
+	e.Require("redispatch.into_shorter_chain", 300)
+	e.Require("redispatch.into_longer_chain", 300)
 	e.Require("long.chains_64_to_127", 100)
 	e.Require("requests.route", 5000)
 	e.Require("requests.not_found", 1000)
@@ -345,6 +348,84 @@ func c04LongCase(t *T) {
 		return
 	}
 	t.Fail("long-chain-"+classifyTrace(want, rec.Events), "chain of %d handlers (%d global, %d group, %d route middleware + main), nobody aborts:\n expected %d events: %s ...\n observed %d events: %s ...", total, nGlobal, nGroup, nRoute, len(want), strings.Join(head(want, 12), " "), len(rec.Events), strings.Join(head(rec.Events, 12), " "))
+}
+
+// c04RedispatchCase: an internal redirect. A handler of the chain of /outer changes the request path
+// and has the router dispatch the request again (Router.HandleContext): the chain of /inner (global
+// middleware included) runs as a whole inside that handler; afterwards the handlers of the outer chain
+// that were suspended in Next() resume in reverse order and no further handler of the outer chain starts.
+func c04RedispatchCase(t *T) {
+	r := t.R
+	nGlobal, nOuter, nInner := r.IntN(3), r.IntN(5), r.IntN(5)
+	mk := func(prefix string, n int, allNext bool) []*MW {
+		out := make([]*MW, n)
+		for i := range out {
+			nx := 1
+			if !allNext && chance(r, 1, 5) {
+				nx = pick(r, []int{0, 2})
+			}
+			out[i] = &MW{ID: fmt.Sprintf("%s%d", prefix, i), Nexts: nx}
+		}
+		return out
+	}
+	globals := mk("G", nGlobal, true)
+	outer := append(mk("o", nOuter, true), &MW{ID: "omain", Nexts: 1, Main: true})
+	inner := append(mk("i", nInner, false), &MW{ID: "imain", Nexts: pick(r, []int{0, 1}), Main: true})
+	j := r.IntN(len(outer)) // the re-dispatching handler of the outer chain
+	nextAfter := chance(r, 1, 2)
+	t.Describe(func() any {
+		return map[string]any{"global": mwList(globals), "outer_chain(/outer)": mwList(outer), "inner_chain(/inner)": mwList(inner),
+			"redispatching_handler": outer[j].ID, "calls_Next_after_the_redispatch": nextAfter}
+	})
+	outer[j].Pre = func(c *rux.Context, rec *Rec) {
+		if c.Req.URL.Path == "/outer" {
+			c.Req.URL.Path = "/inner"
+			rec.Ev("redispatch(%s)", outer[j].ID)
+			c.Router().HandleContext(c)
+			rec.Ev("redispatch-returned(%s)", outer[j].ID)
+		}
+	}
+	if !nextAfter {
+		outer[j].Nexts = 0
+	}
+	router := rux.New()
+	router.Use(handlersOf(globals)...)
+	router.GET("/outer", outer[len(outer)-1].Handler(), handlersOf(outer[:len(outer)-1])...)
+	router.GET("/inner", inner[len(inner)-1].Handler(), handlersOf(inner[:len(inner)-1])...)
+	t.AutoSample()
+
+	// expected trace
+	var want []string
+	pre := append(append([]*MW{}, globals...), outer[:j]...)
+	for _, m := range pre {
+		want = append(want, "enter("+m.ID+")")
+	}
+	want = append(want, "enter("+outer[j].ID+")", "redispatch("+outer[j].ID+")")
+	// the inner dispatch runs the global middleware again (as instances of the same handlers)
+	want = append(want, OnionEvents(append(append([]*MW{}, globals...), inner...))...)
+	want = append(want, "redispatch-returned("+outer[j].ID+")", "leave("+outer[j].ID+")")
+	for i := len(pre) - 1; i >= 0; i-- {
+		want = append(want, "leave("+pre[i].ID+")")
+	}
+	outerLen, innerLen := nGlobal+len(outer), nGlobal+len(inner)
+	switch {
+	case innerLen < outerLen:
+		t.Count("redispatch.into_shorter_chain", 1)
+	case innerLen > outerLen:
+		t.Count("redispatch.into_longer_chain", 1)
+	default:
+		t.Count("redispatch.into_chain_of_equal_length", 1)
+	}
+	t.NonTrivial(fmt.Sprint(mwList(globals), mwList(outer), mwList(inner), j, nextAfter))
+	rec, pv, panicked := Serve(router, NewReq("GET", "/outer"))
+	t.Tracef("GET /outer re-dispatched by %s to /inner: panicked=%v (%v) trace %s", outer[j].ID, panicked, pv, strings.Join(rec.Events, " "))
+	if panicked {
+		t.Fail("redispatch-panics", "GET /outer, re-dispatched by %s (position %d of a chain of %d) to /inner (chain of %d): ServeHTTP panicked: %v; trace so far %s", outer[j].ID, nGlobal+j, outerLen, innerLen, pv, strings.Join(rec.Events, " "))
+		return
+	}
+	if !eventsEqual(want, rec.Events) {
+		t.Fail("redispatch-"+classifyTrace(want, rec.Events), "GET /outer, re-dispatched by %s (position %d of a chain of %d) to /inner (chain of %d):\n expected trace: %s\n observed trace: %s", outer[j].ID, nGlobal+j, outerLen, innerLen, strings.Join(want, " "), strings.Join(rec.Events, " "))
+	}
 }
 
 func head(s []string, n int) []string {
